@@ -45,7 +45,7 @@ for sid, d in sorted(DESC.items()):
     meta = dict(seed_id=sid, property=prop, source="independent sub-agent given only the property text and a scratch worktree",
                 summary=d["summary"], needs=d["needs"], files=d.get("files", ""),
                 verified=dict(demo_passes_on_clean_tree=True, demo_fails_with_change=True, full_suite_passes_with_change=True,
-                              how="tools/verify_seed.sh in a scratch git worktree of /repo HEAD (demo copied into the package named by its package clause; go test -vet=off -count=1 -timeout 25m ./...)"),
+                              how="tools/verify_seed.sh in a scratch git worktree of /repo HEAD (demo copied into the package named by its package clause; go test -vet=off -count=1 -timeout 90m ./...)"),
                 checks_run="git -C /repo apply patch.diff; bin/ddverif -property all; git -C /repo checkout -- .",
                 detected=bool(keys), reported_by_own_property_check=prop in byprop, property_checks_reporting=byprop, detected_by=keys[:12], n_reports=len(keys), comment=d.get("comment", ""))
     json.dump(meta, open(dst + "/meta.json", "w"), indent=1)
